@@ -637,6 +637,17 @@ theorem loadFromCache_prov (R : Rec → Int → Prop) (c : Cache) (i : Info) (no
   · exact loadAddrs_prov lower R c _ now hc h2
   · exact h2
 
+/-- the repaired `async_update_records` walks a permutation of the list it is handed -/
+theorem mem_addrLast {recs : List Rec} {x : Rec} : x ∈ addrLast recs ↔ x ∈ recs := by
+  unfold addrLast
+  simp only [List.mem_append, List.mem_filter]
+  constructor
+  · rintro (h | h) <;> exact h.1
+  · intro h
+    by_cases hx : isAddrRec x = true
+    · exact Or.inr ⟨h, hx⟩
+    · exact Or.inl ⟨h, by simpa using hx⟩
+
 /-! ### provenance along a run -/
 
 /-- the records a block hands to `_process_record_threadsafe` / the cache loaders -/
@@ -672,8 +683,8 @@ theorem step_prov (R : Rec → Int → Prop) (s : Req) (b : Block) (s' : Req) (o
       · simp only [Option.some.injEq, Prod.mk.injEq] at hs
         obtain ⟨hs1, hs2⟩ := hs
         subst hs1; subst hs2
-        have := processAll_prov lower R c now (fun x hx => hb x (by simp [Block.reads, hx])) recs s.info
-          (fun x hx => hb x (by simp [Block.reads, hx])) hp
+        have := processAll_prov lower R c now (fun x hx => hb x (by simp [Block.reads, hx])) (addrLast recs) s.info
+          (fun x hx => hb x (by simp [Block.reads, mem_addrLast.mp hx])) hp
         exact ⟨this, this⟩
       · exact absurd hs (by simp)
     · exact absurd hs (by simp)
@@ -1277,5 +1288,86 @@ theorem processAll_key_or_all (c : Cache) (now : Int) : ∀ (rs : List Rec) (i :
       · exact Or.inl (h2.trans h1)
       · exact Or.inr h2
     · exact Or.inr (processAll_addrAll lower c now rs _ h1)
+
+/-! ### an address handed to the lookup is kept, in any record order (D22) -/
+
+/-- a `DNSAddress` record never changes the host and never removes an address -/
+theorem processRecord_addr_mono (c : Cache) (i : Info) (r : Rec) (now : Int) (hr : isAddrRec r = true) :
+    (processRecord lower c i r now).1.serverKey = i.serverKey ∧
+    ∀ a ∈ i.v4 ++ i.v6, a ∈ (processRecord lower c i r now).1.v4 ++ (processRecord lower c i r now).1.v6 := by
+  unfold isAddrRec at hr
+  unfold processRecord
+  split
+  · exact ⟨rfl, fun a h => h⟩
+  · split
+    · split
+      · split
+        · exact ⟨rfl, fun a h => h⟩
+        · split
+          · refine ⟨rfl, fun a h => ?_⟩
+            simp only [List.mem_append] at h ⊢
+            exact h.imp insertFront_mono id
+          · refine ⟨rfl, fun a h => ?_⟩
+            simp only [List.mem_append] at h ⊢
+            exact h.imp id insertFront_mono
+      · exact ⟨rfl, fun a h => h⟩
+    · rename_i t hrd; rw [hrd] at hr; exact absurd hr (by simp)
+    · rename_i p w q sv hrd; rw [hrd] at hr; exact absurd hr (by simp)
+    · exact ⟨rfl, fun a h => h⟩
+
+/-- an unexpired, well-formed address record whose key is the current host's is taken -/
+theorem processRecord_addr_takes (c : Cache) (i : Info) (x : Rec) (now : Int) (a : Bytes)
+    (hk : i.serverKey = some (lower x.name)) (he : x.isExpired now = false) (ha : addrObj x = some a) :
+    a ∈ (processRecord lower c i x now).1.v4 ++ (processRecord lower c i x now).1.v6 := by
+  obtain ⟨sc, hrd, hv⟩ := addrObj_some ha
+  unfold processRecord
+  simp only [he, Bool.false_eq_true, ↓reduceIte, hrd, hk, beq_self_eq_true]
+  cases hav : addrVersion a with
+  | none => rw [hav] at hv; exact absurd hv (by simp)
+  | some v =>
+    simp only
+    split
+    · simp only [List.mem_append]; exact Or.inl (insertFront_mem_self a i.v4)
+    · simp only [List.mem_append]; exact Or.inr (insertFront_mem_self a i.v6)
+
+theorem processAll_addrs (c : Cache) (now : Int) : ∀ (rs : List Rec) (i : Info), (∀ r ∈ rs, isAddrRec r = true) →
+    (processAll lower c now i rs).1.serverKey = i.serverKey ∧
+    (∀ a ∈ i.v4 ++ i.v6, a ∈ (processAll lower c now i rs).1.v4 ++ (processAll lower c now i rs).1.v6) ∧
+    (∀ x ∈ rs, ∀ a, i.serverKey = some (lower x.name) → x.isExpired now = false → addrObj x = some a →
+      a ∈ (processAll lower c now i rs).1.v4 ++ (processAll lower c now i rs).1.v6) := by
+  intro rs
+  induction rs with
+  | nil => intro i _; exact ⟨rfl, fun a h => h, fun x hx => absurd hx (by simp)⟩
+  | cons r rs ih =>
+    intro i hall
+    simp only [processAll]
+    obtain ⟨m1, m2⟩ := processRecord_addr_mono lower c i r now (hall r (by simp))
+    obtain ⟨n1, n2, n3⟩ := ih (processRecord lower c i r now).1 (fun r' hr' => hall r' (by simp [hr']))
+    refine ⟨n1.trans m1, fun a h => n2 a (m2 a h), ?_⟩
+    intro x hx a hk he ha
+    simp only [List.mem_cons] at hx
+    rcases hx with rfl | hx
+    · exact n2 a (processRecord_addr_takes lower c i x now a hk he ha)
+    · exact n3 x hx a (by rw [m1]; exact hk) he ha
+
+theorem processAll_append (c : Cache) (now : Int) : ∀ (l1 l2 : List Rec) (i : Info),
+    (processAll lower c now i (l1 ++ l2)).1 = (processAll lower c now (processAll lower c now i l1).1 l2).1 := by
+  intro l1
+  induction l1 with
+  | nil => intro l2 i; rfl
+  | cons r rs ih => intro l2 i; simp only [List.cons_append, processAll]; exact ih l2 _
+
+/-- the whole (repaired) update: whatever the order of the records in the datagram -/
+theorem update_keeps_address (c : Cache) (now : Int) (i : Info) (recs : List Rec) (x : Rec) (a : Bytes) (hx : x ∈ recs)
+    (hk : (processAll lower c now i (addrLast recs)).1.serverKey = some (lower x.name))
+    (he : x.isExpired now = false) (ha : addrObj x = some a) :
+    a ∈ (processAll lower c now i (addrLast recs)).1.v4 ++ (processAll lower c now i (addrLast recs)).1.v6 := by
+  unfold addrLast at hk ⊢
+  rw [processAll_append] at hk ⊢
+  obtain ⟨sc, hrd, -⟩ := addrObj_some ha
+  have hxa : isAddrRec x = true := by unfold isAddrRec; rw [hrd]
+  obtain ⟨n1, -, n3⟩ := processAll_addrs lower c now (recs.filter isAddrRec)
+    (processAll lower c now i (recs.filter (fun r => !isAddrRec r))).1 (fun r hr => (List.mem_filter.mp hr).2)
+  exact n3 x (List.mem_filter.mpr ⟨hx, hxa⟩) a (by rw [← n1]; exact hk) he ha
 
 end Zc.Lookup
